@@ -336,6 +336,51 @@ def battery(world, snap, qseed, heavy=True, exporters=True, helpers=True, part=N
     return out
 
 
+def lifetime_probe(world):
+    """A tree stays alive as long as any one of its nodes is referenced: keep a reference to one deepest
+    node only, drop everything else the harness holds, collect garbage, and walk up.  Returns None or a
+    message.  Destroys the universe (end of run only)."""
+    import gc
+
+    snap = world.snapshot()
+    n = len(snap)
+    depth = [0] * n
+    best = None
+    for i in range(n):
+        d, j = 0, i
+        while snap[j][0] is not None and d <= n:
+            j = snap[j][0]
+            d += 1
+        depth[i] = d
+        if best is None or d > depth[best]:
+            best = i
+    if best is None or depth[best] == 0:
+        return None
+    chain = [best]
+    while snap[chain[-1]][0] is not None:
+        chain.append(snap[chain[-1]][0])
+    chain.reverse()
+    size = 0
+    stack = [chain[0]]
+    while stack:
+        j = stack.pop()
+        size += 1
+        stack.extend(snap[j][1])
+    want = [id(world.nodes[j]) for j in chain]
+    leaf = world.nodes[best]
+    del world.nodes[:]
+    world._idx.clear()
+    snap = None
+    gc.collect()
+    got = [id(x) for x in leaf.path]
+    if got != want:
+        return "with only node %d still referenced, its path has %d nodes (was %d: the chain %r)" % (best, len(got), len(want), chain)
+    got_size = leaf.root.size
+    if got_size != size:
+        return "with only node %d still referenced, its tree has %d nodes (was %d)" % (best, got_size, size)
+    return None
+
+
 def first_difference(a, b):
     if len(a) != len(b):
         return ("length", len(a), len(b))
